@@ -86,6 +86,9 @@ pub struct Case {
     pub char_file: Vec<String>,
     pub missp: BTreeMap<String, Vec<String>>,
     pub pre: Pre,
+    /// non-empty: PreprocessingConfig::PerSource with one entry per file (overrides `pre`)
+    #[serde(default)]
+    pub pre_per_source: Vec<Pre>,
     pub task: Task,
     pub post: Post,
     /// 0 sequential, 1 interleaved, 2 weighted
@@ -351,7 +354,16 @@ pub fn run_loader(
         s.set_chaos_all(0, 0);
     }
     let pipeline = TrainPipelineConfig {
-        preprocessing: PreprocessingConfig::Global(pre_cfg(&c.pre, &files.dir)),
+        preprocessing: if c.pre_per_source.is_empty() {
+            PreprocessingConfig::Global(pre_cfg(&c.pre, &files.dir))
+        } else {
+            PreprocessingConfig::PerSource(
+                c.pre_per_source
+                    .iter()
+                    .map(|p| pre_cfg(p, &files.dir))
+                    .collect(),
+            )
+        },
         task: task_cfg(&c.task),
         postprocessing: PostprocessingConfig::Global(post_cfg(&c.post)),
     };
@@ -697,6 +709,30 @@ impl Prop for C08 {
         if char_file.is_empty() {
             char_file.push("<bow> a <eow>\t5".to_string());
         }
+        // per-source preprocessing: the source index reported by the generator selects the function
+        let pre_per_source: Vec<Pre> = if nfiles >= 2 && rng.random_bool(0.35) {
+            (0..nfiles)
+                .map(|i| match (i + rng.random_range(0..2usize)) % 3 {
+                    0 => pre.clone(),
+                    1 => {
+                        if ws_task {
+                            gen_ws(rng)
+                        } else {
+                            Pre::Prefix(format!("src{i}: "))
+                        }
+                    }
+                    _ => {
+                        if ws_task {
+                            Pre::Clean(g_all)
+                        } else {
+                            Pre::Suffix(format!(" #{i}"))
+                        }
+                    }
+                })
+                .collect()
+        } else {
+            vec![]
+        };
         let mut missp = BTreeMap::new();
         for w in WORDS {
             if rng.random_bool(0.5) {
@@ -738,6 +774,7 @@ impl Prop for C08 {
             char_file,
             missp,
             pre,
+            pre_per_source,
             task,
             post,
             strategy,
@@ -816,7 +853,7 @@ fn check_inner(c: &Case, files: &Files, obs: &mut Obs) {
             by_tag.insert(t, f.hash);
         }
     }
-    let tags_ok = !super::c08::has_substring(&c.pre);
+    let tags_ok = !has_substring(&c.pre) && !c.pre_per_source.iter().any(has_substring);
     let check_items = |fl: &[Fp], by_tag: &HashMap<(usize, usize), u64>, what: &str, obs: &mut Obs| {
         if !tags_ok {
             return;
@@ -1039,7 +1076,10 @@ fn check_inner(c: &Case, files: &Files, obs: &mut Obs) {
             obs.check(fr == f0, "fast-forward-zero", || "fast_forward(0) changes the stream".to_string());
         }
     }
-    let randomised = is_random(&c.pre) || !matches!(c.post, Post::None | Post::Clip);
+    let randomised = is_random(&c.pre)
+        || c.pre_per_source.iter().any(is_random)
+        || !matches!(c.post, Post::None | Post::Clip);
+    obs.tag_if(!c.pre_per_source.is_empty(), "pre-per-source");
     obs.nontrivial_if(randomised && b0.len() >= 2 && max_threads >= 2);
     obs.add("loader_runs", runs);
     obs.add("items_in_reference_stream", f0.len() as u64);
